@@ -156,6 +156,8 @@ fn check_run(ctx: &Ctx, script: &str, kind: &str, muts: &[&str], strategy: Strat
         ("/d1".into(), FileSpec::Dir),
         ("/d1/d2".into(), FileSpec::Dir),
         ("/tmp/in".into(), FileSpec::Regular(b"data\n".to_vec())),
+        // a controlling terminal exists: a shell that does no job control must still not open it
+        ("/dev/tty".into(), FileSpec::Regular(Vec::new())),
     ];
     let out = vsh::run_v(cfg);
     ctx.eval();
@@ -170,6 +172,17 @@ fn check_run(ctx: &Ctx, script: &str, kind: &str, muts: &[&str], strategy: Strat
         ctx.violation(format!("missing-snapshot:{kind}"), ctxt());
         return None;
     };
+    // job control is off in these scripts: the shell has no business opening the terminal
+    for e in &snaps {
+        let t = parse_snap(e);
+        if t.get("tty_fds").is_some_and(|v| !v.is_empty()) {
+            ctx.violation(
+                format!("terminal-opened:{kind}"),
+                format!("at `snap {}` descriptors {:?} are open on /dev/tty although job control is off\n{}", e.args[0], t.get("tty_fds"), ctxt()),
+            );
+            return None;
+        }
+    }
     for f in PARENT_FACETS {
         if before.get(f) != after.get(f) {
             ctx.violation(
@@ -250,9 +263,80 @@ fn check_run(ctx: &Ctx, script: &str, kind: &str, muts: &[&str], strategy: Strat
     Some(out)
 }
 
+/// Process-creation faults: the k-th fork of the shell fails. Whatever the shell then does (go on
+/// or give up), the parent's own state must be what it was before the subshell command.
+fn fork_fault_slice(ctx: &Ctx) {
+    let jobs: Vec<(usize, usize, u64)> = (0..KINDS.len()).flat_map(|k| (2..=5usize).flat_map(move |f| (0..2u64).map(move |s| (k, f, s)))).collect();
+    let jobs = &jobs;
+    ctx.par_for(
+        jobs.len(),
+        |i| {
+            let (k, fail, s) = jobs[i];
+            let (kname, kpre, ktpl) = KINDS[k];
+            let mut rng = Rng::new(s + 5);
+            let body = "x=changed; probe in-child";
+            // (the warm-up in setup() makes two process creations: indices 0 and 1... the pipeline adds two)
+            let script = format!(
+                "trap 'snap atexit' EXIT\n{}{}\nsnap before\n{}\nsnap after\n",
+                setup(&mut rng).replace("trap 'probe T-exit' EXIT", ":"),
+                kpre.replace("{B}", body),
+                ktpl.replace("{B}", body)
+            );
+            let mut cfg = vsh::VCfg::script(&script);
+            cfg.extra = vsh::v_probes();
+            cfg.fail_spawn = Some(fail + 1);
+            cfg.files = vec![
+                ("/d1".into(), FileSpec::Dir),
+                ("/d1/d2".into(), FileSpec::Dir),
+                ("/tmp/in".into(), FileSpec::Regular(b"data\n".to_vec())),
+                ("/dev/tty".into(), FileSpec::Regular(Vec::new())),
+            ];
+            let out = vsh::run_v(cfg);
+            ctx.eval();
+            ctx.count("fork_fault_runs", 1);
+            let ctxt = || format!("subshell kind: {kname}; process creation #{} fails\nscript:\n{script}\nstderr:\n{}", fail + 1, out.err());
+            if out.end != vsh::End::Done {
+                ctx.violation(format!("fork-fault:no-termination:{kname}"), format!("{:?}\n{}", out.end, ctxt()));
+                return;
+            }
+            let snaps: Vec<&Event> = out.events.iter().filter(|e| e.kind == "snap").collect();
+            let find = |tag: &str| snaps.iter().find(|e| e.args[0] == tag).map(|e| parse_snap(e));
+            let Some(before) = find("before") else {
+                ctx.count("fork_fault_runs_failed_before_the_command", 1);
+                return;
+            };
+            let Some(after) = find("after").or_else(|| find("atexit")) else {
+                ctx.violation(format!("fork-fault:no-snapshot:{kname}"), ctxt());
+                return;
+            };
+            for f in PARENT_FACETS {
+                // the EXIT trap itself is being run (and removed) when the atexit snapshot is taken
+                if f == "traps" && find("after").is_none() {
+                    continue;
+                }
+                if before.get(f) != after.get(f) {
+                    ctx.violation(
+                        format!("fork-fault:leak:{f}:{kname}"),
+                        format!("the parent's {f} changed across a subshell command whose process could not be created\nbefore: {:?}\nafter:  {:?}\n{}", before.get(f), after.get(f), ctxt()),
+                    );
+                    return;
+                }
+            }
+            ctx.nontrivial_str(&format!("fork-fault|{kname}|{fail}|{s}"));
+        },
+        |i, msg| {
+            ctx.violation(
+                if crate::util::panic_in_repo(&msg) { format!("panic:{}", msg.split(": ").next().unwrap_or("")) } else { "harness-panic".into() },
+                format!("fork-fault {i}: {msg}"),
+            )
+        },
+    );
+}
+
 pub fn run(ctx: &Ctx) {
     let quick = ctx.quick();
     let seed = ctx.seed;
+    fork_fault_slice(ctx);
     // systematic: every mutator x every subshell kind (one mutator each), 2 setups
     let nsys = MUTATORS.len() * KINDS.len() * 2;
     ctx.par_for(
